@@ -350,8 +350,22 @@ Qed.
 
 (* a new survey: every pending receive of that context is cancelled, its queued responses are freed,
    the old id is retired and a fresh one (in range, owned by nobody) installed; deadline = now + survey time *)
+Lemma fanout_no_complete m0 l : forall r rv x, ~ In (Complete r rv x) (snd (fanout m0 l)).
+Proof.
+  induction l as [|[q y] l IH]; cbn [fanout snd]; [cbn; tauto|]. destruct (fanout m0 l) as [r' o]. cbn [snd] in IH.
+  destruct (sp_closed y); [exact IH|]. destruct (sp_busy y); cbn [negb].
+  - destruct (length (sp_q y) <? SURV_SEND_BUF); exact IH.
+  - cbn [snd]. intros r rv x [X|X]; [discriminate|]. eapply IH; eauto.
+Qed.
+Lemma in_kset_other {A} k (v : A) l k' v' : k' <> k -> In (k', v') l -> In (k', v') (kset k v l).
+Proof.
+  intros Hk. induction l as [|[k0 v0] l IH]; cbn; [tauto|]. intros [X|X].
+  - inversion X; subst. destruct (N.eqb_spec k' k); [contradiction|now left].
+  - destruct (N.eqb_spec k0 k); right; auto.
+Qed.
+
 Theorem surv_new_survey_aborts_old fx s c a nb m cx s' outs :
-  NoDup (map fst (sv_ctxs s)) -> (ID_LO <= sv_cur s <= ID_HI)%N ->
+  (ID_LO <= sv_cur s <= ID_HI)%N ->
   get_ctx s c = Some cx -> surv_step fx s (PSend c a nb m) = (s', outs) ->
   (forall r, In r (sc_rq cx) -> In (Complete r E_CANCELED None) outs) /\
   (forall x, In x (sc_lmq cx) -> In (Free x) outs) /\
@@ -363,50 +377,37 @@ Theorem surv_new_survey_aborts_old fx s c a nb m cx s' outs :
        (forall k' c', k' <> ckey c -> In (k', c') (sv_ctxs s) -> sc_survey c' <> sc_survey cx') /\
        (forall k', k' <> ckey c -> kget k' (sv_ctxs s') = kget k' (sv_ctxs s))).
 Proof.
-  unfold get_ctx. intros ND HC H S. cbn [surv_step] in S. rewrite H in S. cbn [ctx_abort] in S.
+  unfold get_ctx. intros HC H St. cbn [surv_step] in St. rewrite H in St. cbn [ctx_abort] in St.
   set (cx1 := mkSctx 0 [] [] (sc_stime cx) (sc_expire cx)) in *.
   set (ctxs1 := kset (ckey c) cx1 (sv_ctxs s)) in *.
-  assert (FO: forall r rv x, In (Complete r rv x) (fail_aios E_CANCELED (sc_rq cx) ++ map Free (sc_lmq cx)) ->
-              In r (sc_rq cx) /\ rv = E_CANCELED /\ x = None).
+  set (o1 := fail_aios E_CANCELED (sc_rq cx) ++ map Free (sc_lmq cx)) in *.
+  assert (FO: forall r rv x, In (Complete r rv x) o1 -> In r (sc_rq cx) /\ rv = E_CANCELED /\ x = None).
   { intros r rv x Hin. apply in_app_or in Hin as [Hin|Hin].
     - unfold fail_aios in Hin. apply in_map_iff in Hin as (y & E & Hy). inversion E; subst. auto.
     - apply in_map_iff in Hin as (y & E & _). discriminate. }
-  destruct (id_alloc (S (length (live_ids ctxs1))) (live_ids ctxs1) (sv_cur s)) as [[id cur']|] eqn:AL.
-  - destruct (fanout (mkPmsg (be32 id) (pm_body m)) (sv_pipes s)) as [pipes' tx] eqn:FA.
-    inversion S; subst s' outs; clear S.
+  assert (P1: forall r, In r (sc_rq cx) -> In (Complete r E_CANCELED None) o1).
+  { intros r Hr. apply in_or_app. left. unfold fail_aios. apply in_map_iff. eauto. }
+  assert (P2: forall x, In x (sc_lmq cx) -> In (Free x) o1).
+  { intros x Hx. apply in_or_app. right. now apply in_map. }
+  destruct (id_alloc (Datatypes.S (length (live_ids ctxs1))) (live_ids ctxs1) (sv_cur s)) as [[id cur']|] eqn:AL.
+  - pose proof (fanout_no_complete (mkPmsg (be32 id) (pm_body m)) (sv_pipes s)) as TXC.
+    destruct (fanout (mkPmsg (be32 id) (pm_body m)) (sv_pipes s)) as [pipes' tx] eqn:FA. cbn [snd] in TXC.
+    inversion St; subst s' outs; clear St.
     destruct (id_alloc_fresh _ _ _ _ _ HC AL) as (NI & RG & CR).
-    assert (TXC: forall r rv x, ~ In (Complete r rv x) tx).
-    { clear - FA. revert pipes' tx FA. induction (sv_pipes s) as [|[q y] l IH]; intros pipes' tx FA; cbn in FA.
-      - inversion FA; subst. tauto.
-      - destruct (fanout (mkPmsg (be32 id) (pm_body m)) l) as [r' o] eqn:E.
-        specialize (IH r' o eq_refl).
-        destruct (sp_closed y); [inversion FA; subst; auto|].
-        destruct (sp_busy y); cbn in FA.
-        + destruct (length (sp_q y) <? SURV_SEND_BUF); inversion FA; subst; auto.
-        + inversion FA; subst. intros r rv x [X|X]; [discriminate|]. eapply IH; eauto. }
-    repeat split.
-    + intros r Hr. apply in_or_app. left. apply in_or_app. left. unfold fail_aios. apply in_map_iff. eauto.
-    + intros x Hx. apply in_or_app. left. apply in_or_app. right. now apply in_map.
-    + apply in_app_or in H0 as [X|X]; [apply FO in X; tauto|].
+    split; [|split; [|split]].
+    + intros r Hr. apply in_or_app. left. auto.
+    + intros x Hx. apply in_or_app. left. auto.
+    + intros r rv x Hin Hne. apply in_app_or in Hin as [X|X]; [now apply FO|].
       apply in_app_or in X as [X|[X|[]]]; [exfalso; eapply TXC; eauto|]. inversion X; subst. contradiction.
-    + apply in_app_or in H0 as [X|X]; [apply FO in X; tauto|].
-      apply in_app_or in X as [X|[X|[]]]; [exfalso; eapply TXC; eauto|]. inversion X; subst. contradiction.
-    + apply in_app_or in H0 as [X|X]; [apply FO in X; tauto|].
-      apply in_app_or in X as [X|[X|[]]]; [exfalso; eapply TXC; eauto|]. inversion X; subst. contradiction.
-    + intros _. eexists. cbn [sv_ctxs]. split; [apply kget_kset_eq|]. cbn. repeat split; auto; try tauto.
+    + intros _. eexists. cbn [sv_ctxs]. split; [apply kget_kset_eq|]. cbn [sc_lmq sc_rq sc_survey sc_expire].
+      split; [reflexivity|]. split; [reflexivity|]. split; [exact RG|]. split; [reflexivity|]. split.
       * intros k' c' Hk Hin E. apply NI. unfold live_ids. apply filter_In. split.
-        -- apply in_map_iff. exists (k', c'). split; [exact E|].
-           unfold ctxs1. clear - Hk Hin ND. induction (sv_ctxs s) as [|[k0 v0] l IH]; cbn in *; [contradiction|].
-           destruct (N.eqb_spec k0 (ckey c)).
-           ++ destruct Hin as [X|X]; [inversion X; subst; contradiction|now right].
-           ++ destruct Hin as [X|X]; [now left|]. right. inversion ND; subst. auto.
-        -- cbn. rewrite E. destruct (N.eqb_spec id 0); [|reflexivity]. unfold ID_LO in RG. lia.
+        -- apply in_map_iff. exists (k', c'). split; [exact E|]. unfold ctxs1. now apply in_kset_other.
+        -- destruct (N.eqb_spec id 0); [|reflexivity]. unfold ID_LO in RG. lia.
       * intros k' Hk. rewrite kget_kset_neq by auto. unfold ctxs1. now apply kget_kset_neq.
-  - inversion S; subst s' outs; clear S. repeat split.
-    + intros r Hr. apply in_or_app. left. apply in_or_app. left. unfold fail_aios. apply in_map_iff. eauto.
-    + intros x Hx. apply in_or_app. left. apply in_or_app. right. now apply in_map.
-    + apply in_app_or in H0 as [X|[X|[]]]; [apply FO in X; tauto|]. inversion X; subst. contradiction.
-    + apply in_app_or in H0 as [X|[X|[]]]; [apply FO in X; tauto|]. inversion X; subst. contradiction.
-    + apply in_app_or in H0 as [X|[X|[]]]; [apply FO in X; tauto|]. inversion X; subst. contradiction.
+  - inversion St; subst s' outs; clear St. split; [|split; [|split]].
+    + intros r Hr. apply in_or_app. left. auto.
+    + intros x Hx. apply in_or_app. left. auto.
+    + intros r rv x Hin Hne. apply in_app_or in Hin as [X|[X|[]]]; [now apply FO|]. inversion X; subst. contradiction.
     + intros X. exfalso. apply in_app_or in X as [X|[X|[]]]; [apply FO in X; destruct X as (_ & X & _); discriminate|discriminate].
 Qed.
